@@ -176,7 +176,18 @@ func CheckDataflow(ref *progen.RefResult, res *Result) []string {
 	if res.TopOuts == nil {
 		out = append(out, "top-level _outs missing or unparseable: "+res.TopOutsText)
 	} else if d := progen.EqSlack(ref.TopOuts, res.TopOuts, "outs"); d != "" {
-		out = append(out, "top-level outputs: "+d)
+		msg := "top-level outputs: " + d
+		// a job that was handed an unexpanded merge expression computes
+		// from it: the wrong output is the same (known) defect downstream
+		if !strings.Contains(msg, `"merge_value"`) {
+			for _, j := range res.Jobs {
+				if strings.Contains(j.ArgsText, `"merge_value"`) {
+					msg += ` [a job was handed an unexpanded "merge_value" expression]`
+					break
+				}
+			}
+		}
+		out = append(out, msg)
 	}
 	return out
 }
